@@ -479,6 +479,8 @@ def _call(s, form, cols, **kw):
         c["data"]["mindex"] = kw.pop("mindex")
     if "series" in kw:
         c["data"]["series"] = kw.pop("series")
+    if "int_labels" in kw:
+        c["data"]["int_labels"] = kw.pop("int_labels")
     c.update(kw)
     return c
 
@@ -544,6 +546,21 @@ def fixed_workloads():
     W.append(_wl("pd-shared-regex/two-matches", [_schema("pd", [_col("^a.*$", regex=True, checks=gt0)])], [
         _call(0, "pd", {"a1": [1, 2], "a2": [3, 4]}),
         _call(0, "pd", {"a1": [1, 2], "a2": [-3, 4]}),
+    ]))
+    # a dtype-only schema (column components are made per data column) on frames whose labels print alike: 0 and "0"
+    W.append(_wl("pd-shared-noop/dtype-only+labels-0-and-'0'", [
+        dict(_schema("pd", []), dtype="int64"),
+    ], [
+        _call(0, "pd", {"0": [1, 2], "1": [3, 4]}, int_labels=True),
+        _call(0, "pd", {"0": [1, 2], "1": ["x", "y"]}, lazy=True),
+    ]))
+    # seeded samples drawn by concurrent calls: each call validates the rows its own seed selects
+    W.append(_wl("pd-distinct/seeded-samples", [
+        _schema("pd", [_col("a", checks=gt0)]),
+        _schema("pd", [_col("a", checks=gt0)]),
+    ], [
+        _call(0, "pd", {"a": [1, -2, 3, 4, -5, 6, 7, 8]}, sample=3, random_state=1),
+        _call(1, "pd", {"a": [1, 2, -3, 4, 5, -6, 7, 8]}, sample=3, random_state=2, lazy=True),
     ]))
     # a model whose definition is broken (its first use raises SchemaInitError) next to a healthy model nobody has
     # compiled yet: the failing compilation must not keep anything (a lock, a half-built cache entry) from the other
@@ -632,7 +649,7 @@ def fixed_workloads():
     return W
 
 
-QUICK = 12
+QUICK = 14
 
 
 def _tier_workloads(tier):
